@@ -1,5 +1,6 @@
 import Rpcx.Model.Server
 import Rpcx.Props.C04
+import Rpcx.Props.C07
 import Rpcx.Model.Plugins
 import Rpcx.Gen.Plugins
 /-
@@ -207,6 +208,27 @@ theorem tie_plugin_stages_first_rejection_wins :
 open Rpcx.Plug in
 /-- non-vacuity: three post-read plugins, the middle one rejecting, an accepting one behind it -/
 example : firstErr [none, some [0x41#8], none] = some [0x41#8] ∧ allAccept [true, false, true] = false := by decide
+
+
+/-! ### every position of the rejected request within a connection's request sequence -/
+
+/-- **a connection that failed authentication is closed – at any position**: after any number of
+    requests that were served, a request whose token is rejected gets its error (if two-way), runs no
+    handler, and NOTHING behind it on the connection is read or served, whatever it is -/
+theorem auth_failure_ends_the_connection (pre post : List (Env × Msg)) (env : Env) (req : Msg) (t : Bytes)
+    (hpre : ∀ e ∈ pre, Action.closeConn ∉ serveOne e.1 e.2)
+    (h1 : env.reachLimit = false) (h2 : env.postReadOk = true) (ha : env.authErr = some t)
+    (hh : Header.isHeartbeat req.hdr = false) :
+    serveConn (pre ++ (env, req) :: post) = pre.flatMap (fun e => serveOne e.1 e.2) ++ serveOne env req
+    ∧ Action.invoke ∉ serveOne env req
+    ∧ (serveOne env req).getLast? = some .closeConn := by
+  have hclose : Action.closeConn ∈ serveOne env req := by
+    simp [serveOne, h1, h2, ha, hh]
+  refine ⟨?_, ?_, auth_failure_closes env req t h1 h2 ha hh⟩
+  · rw [Props.C07.serveConn_prefix pre _ hpre]
+    simp only [serveConn, hclose, if_true]
+  · have := rejected_no_invoke .native true env req (Or.inr (Or.inr (Or.inr (Or.inl ⟨by simp [ha], fun _ => hh⟩))))
+    simpa [ingressOne] using this
 
 
 end Rpcx.Props.C15
